@@ -27,6 +27,7 @@ ASSUMPTIONS = ['expat is the arbiter of well-formedness',
 FLOORS = {'files_parsed': 300, 'testcases_matched': 1500,
           'hostile_messages': 300, 'event_elements_checked': 500,
           'subtest_events': 50, 'doctest_cases': 50, 'hostile_names': 100,
+          'tests_printing_hostile_output_buffered': 60,
           'classes_spread_over_layers': 40}
 BATCH_TIMEOUT = 300
 
@@ -100,6 +101,7 @@ def run_case(case):
     nodes = []
     labels = set()
     hostile_names = 0
+    writers = 0
     for c in range(ncls):
         tests = []
         for i in range(rng.randint(1, 5)):
@@ -114,6 +116,18 @@ def run_case(case):
             t = {'name': name, 'kind': kind, 'msg': msg,
                  'exc': rng.choice(['ValueError', 'KeyError', 'NeedsArgs',
                                     'Chained', 'OSError', 'Group'])}
+            if rng.random() < 0.3:
+                # what tests print is as hostile as what they raise: colour
+                # escapes, progress spinners, binary dumps - with --buffer
+                # the runner holds it and shows it for failing tests
+                wmsg, wlab = gen_message(rng)
+                if wlab not in ('long', 'surrogate'):
+                    labels.add(wlab)
+                    t['actions'] = [{'ph': rng.choice(['setUp', 'body']),
+                                     'do': 'write', 'text': wmsg + '\n',
+                                     'stream': rng.choice(['stdout',
+                                                           'stderr'])}]
+                    writers += 1
             if kind == 'subtests':
                 t['subs'] = rng.choice([['F'], ['P', 'E'], ['F', 'E', 'P'],
                                         ['F', 'F']])
@@ -209,7 +223,7 @@ def run_case(case):
     opts = {'verbose': rng.randint(0, 2)}
     if rng.random() < 0.2:
         opts['repeat'] = 2
-    if rng.random() < 0.2:
+    if rng.random() < 0.35:
         opts['buffer'] = True
     if submode == 'par':
         # the layers run in subprocesses, which write the report files
@@ -369,6 +383,9 @@ def run_case(case):
     hostile = labels - {'plain', 'empty'}
     C('hostile_messages', 1 if hostile else 0)
     C('hostile_names', hostile_names)
+    C('tests_printing_hostile_output', writers)
+    if opts.get('buffer'):
+        C('tests_printing_hostile_output_buffered', writers)
     sig = None
     if hostile or hostile_names:
         sig = [[(n.get('name'), [(t['name'], t['kind']) for t in
